@@ -27,6 +27,7 @@ type Program struct {
 	lemmas    []*lemmaRef
 	errs      []string
 	fcPkg     map[*FuncContract]*ssa.Package
+	constGlobals map[string]bool
 }
 
 type lemmaRef struct {
@@ -192,6 +193,8 @@ func Load(ls LoadSpec) (*Program, error) {
 			mine[sp] = true
 		}
 	}
+	p.computeConstGlobals(all, mine)
+	p.specs.constGlobals = p.constGlobals
 	for fn := range all {
 		if fn.Pkg == nil || !mine[fn.Pkg] || fn.Synthetic != "" && !strings.HasPrefix(fn.Synthetic, "package init") {
 			continue
@@ -241,6 +244,66 @@ func Load(ls LoadSpec) (*Program, error) {
 		}
 	}
 	return p, nil
+}
+
+// computeConstGlobals finds package-level variables that hold a non-nil error created in the package
+// initialiser and are never assigned anywhere else in the package: they are treated as distinct
+// non-nil constants (a syntactic whole-package check, redone on every run).
+func (p *Program) computeConstGlobals(all map[*ssa.Function]bool, mine map[*ssa.Package]bool) {
+	p.constGlobals = map[string]bool{"io.EOF": true, "io.ErrUnexpectedEOF": true, "io.ErrShortBuffer": true, "context.Canceled": true, "context.DeadlineExceeded": true}
+	good := map[*ssa.Global]bool{}
+	bad := map[*ssa.Global]bool{}
+	for fn := range all {
+		if fn.Pkg == nil || !mine[fn.Pkg] {
+			continue
+		}
+		isInit := fn.Name() == "init" && fn.Synthetic != ""
+		for _, b := range fn.Blocks {
+			for _, in := range b.Instrs {
+				// any use of the global's address other than load/store counts as escaping
+				var ops []*ssa.Value
+				for _, op := range in.Operands(ops) {
+					g, ok := (*op).(*ssa.Global)
+					if !ok {
+						continue
+					}
+					switch x := in.(type) {
+					case *ssa.Store:
+						if x.Addr == ssa.Value(g) && isInit && nonNilErrorValue(x.Val) && !good[g] {
+							good[g] = true
+						} else {
+							bad[g] = true
+						}
+					case *ssa.UnOp:
+						// load: fine
+					case *ssa.DebugRef:
+					default:
+						bad[g] = true
+					}
+				}
+			}
+		}
+	}
+	for g := range good {
+		if !bad[g] {
+			p.constGlobals[g.Pkg.Pkg.Path()+"."+g.Name()] = true
+		}
+	}
+}
+
+func nonNilErrorValue(v ssa.Value) bool {
+	switch x := v.(type) {
+	case *ssa.Call:
+		if c := x.Common().StaticCallee(); c != nil {
+			n := c.String()
+			return n == "errors.New" || n == "fmt.Errorf"
+		}
+	case *ssa.MakeInterface:
+		if _, ok := x.X.(*ssa.Alloc); ok {
+			return true
+		}
+	}
+	return false
 }
 
 func (p *Program) sortedContracts() []*ssa.Function {
